@@ -43,6 +43,14 @@ THEOREMS = [
     "SynKit.ITS.construct_swap_standard_order",
     "SynKit.ITS.construct_swap",
     "SynKit.ITS.C01.graphStatement_holds",
+    "SynKit.ITS.implicitH_preserves_totalH",
+    "SynKit.ITS.foldGuard_of_HValence",
+    "SynKit.ITS.implicitH_keeps_preserved",
+    "SynKit.ITS.implicitH_removes_only_H",
+    "SynKit.ITS.smiGraph_congr",
+    "SynKit.ITS.its_to_rsmi_graph_part",
+    "SynKit.ITS.its_to_rsmi_totalH",
+    "SynKit.ITS.its_to_rsmi_skeleton",
 ]
 
 ITS_NODE_KEYS = ["typesGH", "element", "aromatic", "hcount", "charge", "atom_map"]
